@@ -14,7 +14,7 @@ import c14_values as V
 import c14_programs as P
 
 MODEL_FILES = ['MaltModel/Rt/Builtins.lean', 'MaltModel/Generated/Builtins.lean', 'MaltModel/Proofs/C14Bind.lean',
-               'MaltModel/Proofs/C14Forward.lean', 'MaltModel/Proofs/C14Frames.lean', 'MaltModel/Drv/C14.lean']
+               'MaltModel/Proofs/C14Forward.lean', 'MaltModel/Proofs/C14Table.lean', 'MaltModel/Proofs/C14Frames.lean', 'MaltModel/Drv/C14.lean']
 
 CLS_BODY = 'frame_builtin_inside_functionalised_body'
 CLS_EVAL_G = 'eval_globals_without_locals'
@@ -72,6 +72,9 @@ class Routes:
         if via == 'overload_of':
             pb = self.pb
             return lambda *a, **k: pb.overload_of(f)(*a, **k)     # the table lookup is part of what is observed
+        if via == 'map_entry':
+            pb = self.pb
+            return lambda *a, **k: pb.BUILTIN_FUNCTIONS_MAP[b](*a, **k)
         if via == 'converted_call':
             api, opts = self.api, self.opts
             return lambda *a, **k: api.converted_call(f, tuple(a), dict(k) if k else None, options=opts)
@@ -278,6 +281,27 @@ def extract_writes(code, watched):
     return sorted(set(writes))
 
 
+def generated_depth(code):
+    """Number of generated functions/lambdas enclosing the first converted_call of a frame-sensitive builtin,
+    below the converted function itself (read from the generated code)."""
+    import ast
+    tree = ast.parse(code)
+    best = []
+
+    def walk(node, depth):
+        if best:
+            return
+        if isinstance(node, ast.Call) and isinstance(node.func, ast.Attribute) and node.func.attr == 'converted_call' and node.args:
+            tgt = node.args[0]
+            if isinstance(tgt, ast.Call) and tgt.args and isinstance(tgt.args[0], ast.Name) and tgt.args[0].id in ('eval', 'locals', 'globals', 'super'):
+                best.append(depth)
+                return
+        for c in ast.iter_child_nodes(node):
+            walk(c, depth + 1 if isinstance(c, (ast.FunctionDef, ast.Lambda)) else depth)
+    walk(tree, 0)
+    return best[0] - 1 if best else None
+
+
 def body_hides_py(prog):
     """bodyHidesName: the call sits in a generated body and needs a user variable that body does not reference."""
     if prog.get('wrap'):     # the call is an operand turned into a lambda, which references none of the user's variables
@@ -309,11 +333,15 @@ def program_case(routes, prog, feature):
             rc = run_callable(conv, mk_args(a))
             results.append({'args': a, 'original': ro, 'converted': rc})
     bad = [r for r in results if r['original'] != r['converted']]
+    gen_depth = None
     try:
-        writes = extract_writes(routes.malt.to_code(orig, recursive=True, experimental_optional_features=feats), WATCH)
+        code = routes.malt.to_code(orig, recursive=True, experimental_optional_features=feats)
+        writes = extract_writes(code, WATCH)
+        gen_depth = generated_depth(code)
     except Exception as e:  # noqa
         writes = [('unavailable: %s' % type(e).__name__, False, False)]
-    return ('converted function differs from the original' if bad else None), {'results': results, 'writes': writes}, spy.records
+    return ('converted function differs from the original' if bad else None), \
+        {'results': results, 'writes': writes, 'gen_depth': gen_depth}, spy.records
 
 
 def _program_chunk(chunk):
@@ -491,6 +519,7 @@ def env_expect(result, params):
 
 PROOF_MODULES = {'MaltModel.Proofs.C14Bind': 'MaltModel/Proofs/C14Bind.lean',
                  'MaltModel.Proofs.C14Forward': 'MaltModel/Proofs/C14Forward.lean',
+                 'MaltModel.Proofs.C14Table': 'MaltModel/Proofs/C14Table.lean',
                  'MaltModel.Proofs.C14Frames': 'MaltModel/Proofs/C14Frames.lean'}
 
 
@@ -616,6 +645,7 @@ def _check(run, routes, only_case):
     per_builtin = {}
     failing_direct = []
     sampled = set()
+    all_direct = []       # (builtin, way) of every generated direct call, for the theorem-coverage distribution
     nrandom = 6 if quick else 40
     for b in supported:
         W = V.ways(b, run.tier)
@@ -643,6 +673,7 @@ def _check(run, routes, only_case):
                     diff, t1, t2 = direct_case(routes, case)
                     run.case(('direct', b, wi, key, via), True)
                     nb += 1
+                    all_direct.append((b, way))
                     oc = t1['outcome'][0] + (':' + t1['outcome'][1].split('.')[-1] if t1['outcome'][0] == 'exc' else '')
                     outcomes[oc] = outcomes.get(oc, 0) + 1
                     if diff is not None:
@@ -653,6 +684,26 @@ def _check(run, routes, only_case):
                         sampled.add(b)
                         run.sample({'case': case, 'builtin_and_substitute_did': V.tr_json(t1)})
         per_builtin[b] = nb
+    # entries of BUILTIN_FUNCTIONS_MAP that are not (yet) in SUPPORTED_BUILTINS: the overload itself vs the builtin
+    for b in [k for k in pb.BUILTIN_FUNCTIONS_MAP if k not in supported]:
+        W = V.ways(b, run.tier)
+        if not W:
+            fail('no ways of calling %s (key of BUILTIN_FUNCTIONS_MAP) are known to the harness' % b, {'kind': 'direct', 'builtin': b}, None)
+            continue
+        nb = 0
+        for wi, way in enumerate(W):
+            roles = list(way[0]) + [r for _, r in way[1]]
+            for label, vs in V.value_sets(b) + V.random_value_sets(b, rng, nrandom):
+                sub = {r: vs[r] for r in roles}
+                case = {'kind': 'direct', 'builtin': b, 'way': [list(way[0]), [list(x) for x in way[1]]], 'values': sub,
+                        'label': label, 'via': 'map_entry'}
+                diff, t1, t2 = direct_case(routes, case)
+                run.case(('direct', b, wi, json.dumps(sub, sort_keys=True), 'map_entry'), True)
+                nb += 1
+                all_direct.append((b, way))
+                if diff is not None:
+                    fail('map entry of %s differs from the builtin in %s' % (b, diff), case, None)
+        per_builtin[b + ' (mapped, not supported)'] = nb
     run.cov['direct_cases_per_builtin'] = per_builtin
     run.cov['direct_outcomes_of_builtin'] = dict(sorted(outcomes.items(), key=lambda x: -x[1]))
 
@@ -706,6 +757,7 @@ def _check(run, routes, only_case):
         st = by_kind_depth.setdefault(kd, [0, 0])
         st[0] += 1
         for r in recs:
+            r['gen_depth'] = det.get('gen_depth')
             frame_records.append((prog, r))
         if what is not None:
             st[1] += 1
@@ -766,10 +818,10 @@ def _check(run, routes, only_case):
              'len': {'pos': [[1]]}, 'map': {'pos': [str, [1], [2], [3]]},
              'print': {'pos': [1, 2, 3], 'kw': {'sep': ' ', 'end': '', 'file': None, 'flush': False}},
              'range': {'pos': [1, 5, 2, 1]}, 'sorted': {'pos': [[1], None], 'kw': {'key': None, 'reverse': False}},
-             'zip': {'pos': [[1], [2], [3]], 'kw': {'strict': True}}}
+             'zip': {'pos': [[1], [2], [3]], 'kw': {'strict': True}}, 'next': {'pos': [iter([1, 2]), 0, 0]}}
     lines, expect, meta = [], [], []
     spec_sig_bad = []
-    for b in supported:
+    for b in supported + [k for k in pb.BUILTIN_FUNCTIONS_MAP if k not in supported]:
         forms = parse_sexp(drive(['c14.spec ' + b])[0])
         if not forms:
             spec_sig_bad.append('%s: no specification in the model' % b)
@@ -864,6 +916,7 @@ def _check(run, routes, only_case):
     # 3e. recorded forwarded calls (builtin names shadowed inside py_builtins' globals) vs model `forward`
     lines, expect = [], []
     spies_log = []
+    fwd_shapes = []
     RESULT = object()
 
     def mkspy(name):
@@ -914,6 +967,7 @@ def _check(run, routes, only_case):
                     truthy = [v.name for v in kw.values() if v.truthy] + [p.name for p in pos]
                     lines.append('c14.forward %s %s %s' % (b, sexp([[p.name for p in pos], [[k, v.name] for k, v in kw.items()]]),
                                                            sexp(['truthy'] + truthy)))
+                    fwd_shapes.append((b, sexp([[p.name for p in pos], [[k, v.name] for k, v in kw.items()]])))
                     expect.append(exp)
     finally:
         for b, v in saved.items():
@@ -937,6 +991,93 @@ def _check(run, routes, only_case):
     run.oblige('correspondence:c14.forward', 'correspondence', not dis, json.dumps(dis[:3]))
     if lines:
         run.sample({'request': lines[len(lines) // 3], 'implementation': expect[len(lines) // 3], 'model': got[len(lines) // 3]})
+
+    # 3e'. registry dispatch: two user types registered in every registry with recording overrides; the overload must
+    #      take the override exactly when the model's `dispatchOf` says so, with the arguments `overrideCall` says
+    class SA(Tok):
+        pass
+
+    class SB(Tok):
+        pass
+    del spies_log[:]
+
+    def mkoverride(n):
+        def override(*a, **k):
+            spies_log.append(('override', n, a, k))
+            return RESULT
+        return override
+    map_keys = list(pb.BUILTIN_FUNCTIONS_MAP)
+    reg_objs = [getattr(pb, n) for n in tables[4] if getattr(pb, n, None) is not None]
+    lines, expect, staged_shapes = [], [], []
+    saved = {}
+    try:
+        for r in reg_objs:
+            r.register(SA, mkoverride(1)); r.register(SB, mkoverride(2))
+        for b in map_keys:
+            saved[b] = pb.__dict__.get(b, saved)
+            pb.__dict__[b] = mkspy(b)
+        for b in map_keys:
+            forms = parse_sexp(drive(['c14.spec ' + b])[0])
+            kwn = sorted({p[0] for f in forms for p in f if p[1] in ('posOrKw', 'kwOnly')})[:1]
+            for npos in range(4):
+                for kinds in itertools.product('pab', repeat=npos):
+                    for kws in ([], kwn) if kwn else ([],):
+                        pos = [{'p': Tok, 'a': SA, 'b': SB}[kd](('p' if kd == 'p' else 's' + kd) + str(i)) for i, kd in enumerate(kinds)]
+                        kw = {k: Tok('v' + k) for k in kws}
+                        del spies_log[:]
+                        try:
+                            res = pb.BUILTIN_FUNCTIONS_MAP[b](*pos, **kw)
+                            if len(spies_log) != 1:
+                                exp = 'IMPLEMENTATION-MADE-%d-CALLS' % len(spies_log)
+                            elif spies_log[0][0] == 'override':
+                                _, n, a, k = spies_log[0]
+                                exp = sexp(['override', n, [val_sexp(x, pb.UNSPECIFIED) for x in a],
+                                            [[kk, val_sexp(x, pb.UNSPECIFIED)] for kk, x in k.items()]])
+                            else:
+                                n, a, k = spies_log[0]
+                                exp = sexp(['py', n, res is RESULT, [val_sexp(x, pb.UNSPECIFIED) for x in a],
+                                            [[kk, val_sexp(x, pb.UNSPECIFIED)] for kk, x in k.items()]])
+                        except TypeError:
+                            exp = 'TypeError'
+                        except ValueError:
+                            exp = 'ValueError'
+                        except Exception as e:  # noqa
+                            exp = type(e).__name__
+                        shp = sexp([[p.name for p in pos], [[k, v.name] for k, v in kw.items()]])
+                        lines.append('c14.mappedS %s %s %s' % (b, shp, sexp(['truthy'] + [p.name for p in pos] + [v.name for v in kw.values()])))
+                        expect.append(exp)
+                        staged_shapes.append((b, shp))
+    finally:
+        for r in reg_objs:
+            r._registry.pop(SA, None); r._registry.pop(SB, None)
+        for b, v in saved.items():
+            if v is saved:
+                pb.__dict__.pop(b, None)
+            else:
+                pb.__dict__[b] = v
+    corr('c14.mappedS(registry-dispatch)', lines, expect)
+    left = [n for n in tables[4] if getattr(getattr(pb, n, None), '_registry', None) not in ({}, None)]
+    run.oblige('correspondence:registries-restored', 'correspondence', not left, 'still filled: %s' % left)
+
+    # where the generated calls stand with respect to C14_forward_table_partial (its hypotheses, evaluated by the driver)
+    def coverage_hist(pairs):
+        ls = ['c14.coverage %s %s' % (b, shp) for b, shp in pairs]
+        hist = {}
+        for g in (drive(ls) if ls else []):
+            hist[g] = hist.get(g, 0) + 1
+        return dict(sorted(hist.items(), key=lambda x: -x[1]))
+    run.cov['forward_theorem_coverage'] = {
+        'outside_the_theorem_by_design': [
+            'sentinel-argument: an argument that is the UNSPECIFIED sentinel (hypothesis userShape; user code cannot name it)',
+            'staged-argument: an argument whose type is registered in the overload registry - the override runs (hypothesis unstaged)',
+            'shape-rejected-by-builtin-signature: outside the property; positional arity covered by C14_arity_errors_partial',
+            'not-in-BUILTIN_FUNCTIONS_MAP: the builtin itself is called (C14_unsubstituted_identity)',
+            'dispatch paths before the builtin branch of converted_call (allowlist cache, disabled context, partial unwrapping): property C13',
+            'eval/locals/globals/super: frame theorems, not the forwarding theorem'],
+        'direct_oracle_calls': coverage_hist([(b, sexp([list(w[0]), [[k, r] for k, r in w[1]]])) for b, w in all_direct]),
+        'forward_correspondence_shapes': coverage_hist(fwd_shapes),
+        'registry_dispatch_shapes': coverage_hist(staged_shapes),
+    }
 
     # 3f. frame search: the model on the recorded real stacks, and on synthetic real stacks
     def frames_sexp(frames):
@@ -986,6 +1127,16 @@ def _check(run, routes, only_case):
                 lines.append('c14.find fscope 1 %s %s' % (sexp(innermost), sexp(frames_sexp(frames))))
                 expect.append('none' if out[0] is None else str(out[0]))
     corr('c14.find', lines, expect)
+    # every recorded real stack obeys the frame discipline GenStack at the depth read off the generated code
+    gs_lines, gs_expect, depth_hist = [], [], {}
+    for prog, r in frame_records:
+        if r.get('gen_depth') is None:
+            continue
+        gs_lines.append('c14.genstack %s 1 %s' % (r['name'], sexp(frames_sexp(r['frames']))))
+        gs_expect.append(sexp([r['gen_depth'], True]))
+        depth_hist[r['gen_depth']] = depth_hist.get(r['gen_depth'], 0) + 1
+    corr('c14.genstack', gs_lines, gs_expect)
+    run.cov['recorded_stacks_by_generated_depth'] = dict(sorted(depth_hist.items()))
     corr('c14.class.body', cls_lines, cls_expect)
     corr('c14.class.stale', stale_lines, stale_expect)
     modes = {b: drive(['c14.innermost ' + b])[0] for b in ('eval', 'locals', 'globals', 'super')}
